@@ -107,7 +107,7 @@ def run(ctx):
         one(ctx, which, pts, cfg, fam)
     # long inputs (> 1024 points): the step bound is LINEAR in n, and nothing may treat long ranges differently
     for which in (['rdp', 'rdp', 'grdp'] if quick else ['rdp'] * 12 + ['grdp', 'rdp_fixed', 'mp_grdp', 'min_point_rdp'] * 4):
-        pts, fam = rdpfam.long_curve(rng)
+        pts, fam = rdpfam.long_curve(rng) if which == 'rdp' else rdpfam.long_curve(rng, rng.randrange(1100, 2400))    # the global-cost loops are quadratic in the result size
         cfg = rand_cfg(ctx, which, pts)
         if 't' in cfg and cfg.get('cost') != 'r2':
             cfg['t'] = rng.choice([0.05, 0.2, 0.5])
